@@ -1,10 +1,10 @@
 package ksim
 
 import (
-	appsv1 "k8s.io/api/apps/v1"
-	corev1 "k8s.io/api/core/v1"
 	"encoding/json"
 	"fmt"
+	appsv1 "k8s.io/api/apps/v1"
+	corev1 "k8s.io/api/core/v1"
 	mrand "math/rand"
 	"os"
 	"strings"
@@ -39,26 +39,26 @@ var simScheme = func() *runtime.Scheme {
 
 // RunResult is what one simulated run reports.
 type RunResult struct {
-	Seed       int64          `json:"seed"`
-	Scenario   *Scenario      `json:"scenario"`
-	Config     Config         `json:"-"`
-	Steps      int            `json:"steps"`
-	SimSeconds float64        `json:"simSeconds"`
-	EndReason  string         `json:"endReason"`
-	Writes     int            `json:"writes"`
-	Calls      int            `json:"calls"`
-	Stats      map[string]int `json:"stats"`
-	Probes     map[string]int `json:"probes"`
-	Violations []Violation    `json:"violations,omitempty"`
-	Trace      []string       `json:"trace,omitempty"`
-	TraceHash  string         `json:"traceHash"`
-	LogHash    string         `json:"logHash"`
-	Final      string         `json:"final"`
-	Digest     string         `json:"digest"`
+	Seed       int64             `json:"seed"`
+	Scenario   *Scenario         `json:"scenario"`
+	Config     Config            `json:"-"`
+	Steps      int               `json:"steps"`
+	SimSeconds float64           `json:"simSeconds"`
+	EndReason  string            `json:"endReason"`
+	Writes     int               `json:"writes"`
+	Calls      int               `json:"calls"`
+	Stats      map[string]int    `json:"stats"`
+	Probes     map[string]int    `json:"probes"`
+	Violations []Violation       `json:"violations,omitempty"`
+	Trace      []string          `json:"trace,omitempty"`
+	TraceHash  string            `json:"traceHash"`
+	LogHash    string            `json:"logHash"`
+	Final      string            `json:"final"`
+	Digest     string            `json:"digest"`
 	Digests    map[string]string `json:"-"`
-	NScenarios int            `json:"nScenarios,omitempty"`
-	Choices    []uint32       `json:"-"`
-	LogLines   []string       `json:"-"`
+	NScenarios int               `json:"nScenarios,omitempty"`
+	Choices    []uint32          `json:"-"`
+	LogLines   []string          `json:"-"`
 }
 
 type RunOpts struct {
